@@ -364,6 +364,11 @@ def load_patches(
     if patch_centers is not None:
         if isinstance(patch_centers, Catalog):
             patch_centers = patch_centers.get_centers()
+        if patch_ids != list(range(len(patch_centers))):
+            # a center without objects: patches and centers cannot be paired up
+            if parallel.on_root():
+                (cache_directory / PATCH_INFO_FILE).unlink()  # invalidate the cache
+            raise ValueError("there are patch centers without any objects assigned")
         patch_arg_iter = zip(patch_paths, patch_centers)
 
     else:
